@@ -95,6 +95,18 @@ def gen_case(rng, index, tier):
     case['canaries'] = canaries
     case['normal'] = normal
     case['cmd'] = rng.choice(CMDS)
+    # every mode of the purging / listing commands goes through the same rule
+    xo, xi = [], ''
+    if case['cmd'] in ('empty', 'empty-days'):
+        v = rng.choice(['plain', 'plain', '-i-yes', '-i-yes', '--interactive-Y',
+                        '-v', '-f', '-vv', '-i-no'])
+        if v.startswith('-i') or v.startswith('--interactive'):
+            xo = ['--interactive'] if v.startswith('--') else ['-i']
+            xi = {'yes': 'y\n', 'Y': 'Y\n', 'no': 'n\n'}[v.rsplit('-', 1)[1]]
+        elif v != 'plain':
+            xo = [v]
+    case['xopts'] = xo
+    case['xstdin'] = xi
     if case['cmd'] == 'put2-toggle' and (state != 'sticky' or tv == ''):
         case['cmd'] = 'put'
     case['toggle'] = rng.choice(['unsticky', 'symlink', 'file'])
@@ -179,8 +191,6 @@ def run_case(case):
             return toggle_case(case, w, out)
         if cmd == 'put':
             r = run.run(w, 'put', ['victim'], stdin=b'')
-        elif cmd == 'list':
-            r = run.run(w, 'list', [], stdin=b'')
         elif cmd == 'restore':
             r0 = run.run(w, 'restore', [], stdin=b'', cwd=w.R)
             lst = trashio.parse_restore_listing(r0.outtext())
@@ -188,11 +198,14 @@ def run_case(case):
             reply = ('0-%d\n' % (n - 1)) if n else '\n'
             r = run.run(w, 'restore', [], stdin=reply.encode(), cwd=w.R)
         elif cmd == 'empty':
-            r = run.run(w, 'empty', [], stdin=b'')
+            r = run.run(w, 'empty', case.get('xopts', []), stdin=case.get('xstdin', '').encode())
         elif cmd == 'empty-days':
-            r = run.run(w, 'empty', ['1'], stdin=b'')
+            r = run.run(w, 'empty', case.get('xopts', []) + ['1'],
+                        stdin=case.get('xstdin', '').encode())
+        elif cmd == 'list':
+            r = run.run(w, 'list', case.get('xopts', []), stdin=b'')
         else:
-            r = run.run(w, 'rm', ['*'], stdin=b'')
+            r = run.run(w, 'rm', case.get('xopts', []) + ['*'], stdin=b'')
         s1 = w.snapshot()
         if r.timeout or r.audit_ok() is False:
             out['verdict'] = 'inconclusive'
@@ -254,7 +267,10 @@ def run_case(case):
                 if cmd == 'restore':
                     used = used and all(c['loc'] in s1 for c in case['canaries'])
             elif cmd in ('empty', 'empty-days', 'rm'):
-                used = all(trashworld.entry_state(s0, s1, c) == 'gone'
+                declined = bool(case.get('xstdin')) and \
+                    not case['xstdin'].lower().startswith('y')
+                used = all(trashworld.entry_state(s0, s1, c) ==
+                           ('intact' if declined else 'gone')
                            for c in case['canaries'])
             if used:
                 obs['secure_used'] = 1
